@@ -10,6 +10,19 @@ namespace Verif.Proofs
 
 open Verif
 
+/-- decidable equality on reader results, so that concrete instances of the round-trip
+    properties (the non-vacuity examples in `Props/C07.lean`) can be closed by `decide` -/
+instance instDecidableEqExcept {ε α : Type} [DecidableEq ε] [DecidableEq α] :
+    DecidableEq (Except ε α)
+  | .ok a, .ok b =>
+    if h : a = b then isTrue (by rw [h])
+    else isFalse (by intro h'; injection h' with h'; exact h h')
+  | .error a, .error b =>
+    if h : a = b then isTrue (by rw [h])
+    else isFalse (by intro h'; injection h' with h'; exact h h')
+  | .ok _, .error _ => isFalse (by intro h; cases h)
+  | .error _, .ok _ => isFalse (by intro h; cases h)
+
 /-! ### `IsBytes` plumbing -/
 
 theorem isBytes_nil : IsBytes [] := by intro b hb; cases hb
